@@ -467,6 +467,8 @@ class Oracle:
             a = ev(node[2], env)
             b = ev(node[3], env)
             if node[1] == "matmul":
+                if np.isinf(a).any() or np.isinf(b).any():
+                    raise OutOfDomain("matmul of infinities (order-dependent)")
                 return np.matmul(a, b)
             _check_domain_bin(node[1], a, b)
             return np.asarray(NP_BINARY[node[1]](a, b))
@@ -532,6 +534,8 @@ class Oracle:
                 total = v if total is None else total + v
             return np.asarray(total)
         if k == "einsum":
+            if any(np.isinf(np.asarray(ev(x, env), dtype=float)).any() for x in node[2]):
+                raise OutOfDomain("einsum of infinities (order-dependent)")
             return np.einsum(node[1], *[np.asarray(ev(x, env), dtype=float) for x in node[2]])
         if k == "fstack":
             vals = [ev(x, env) for x in node[2]]
